@@ -98,7 +98,7 @@ def catalogue():
     # where / clip / fillna / astype
     add("where_cond", "where", lambda a: a.where(a > 2), _num)
     add("where_other", "where", lambda a: a.where(a > 2, 0), _num)
-    add("where_drop_lead", "where", lambda a: a.where(_lead_mask(a), drop=True), lambda a: _need_lead(a) and _num(a))
+    add("where_drop_lead", "where", lambda a: a.where(_lead_mask(a), drop=True), lambda a: _need_lead(a) and _num(a) and a.sizes[_lead(a)] >= 2)
     add("clip", "where", lambda a: a.clip(1, 4), _num)
     add("fillna", "where", lambda a: a.fillna(7), _float)
     add("where_fillna", "where", lambda a: a.where(a > 2).fillna(-1), _num)
@@ -198,7 +198,7 @@ def own_applicable(name, a):
     if name == "grid_where_drop_lead_and_values":
         return n >= 2 and _num(a) and a.dtype.kind == "f" and _need_lead(a) and a.sizes[_lead(a)] >= 2
     if name == "grid_isel_with_lead":
-        return n >= 2 and _need_lead(a)
+        return n >= 2 and _need_lead(a) and a.sizes[_lead(a)] >= 1
     if name == "integrate":
         return d == "n_face" and _num(a) and a.dims[-1] == d
     if name in ("gradient",):
@@ -405,6 +405,11 @@ def run_case(ctx, case):
                     warnings.simplefilter("ignore")
                     r = apply_own(nm, a, other, np.random.default_rng([case["dseed"], step]))
             except Exception as e:
+                if nm.startswith("grid_") and gdim(a) in ("n_node", "n_edge") and isinstance(e, ValueError) and "zero-size" in str(e):
+                    # the indexed nodes / edges belong to no face (possible on duals of partial grids): nothing is selected, an
+                    # error is admissible (as in C09)
+                    ctx.observe("empty_selection_rejected")
+                    break
                 ctx.check("no_exception", False, dict(sig, exc=core.exc_sig(e)), dict(det, exc=repr(e)[:300]))
                 break
             ctx.check("no_exception", True)
